@@ -52,7 +52,7 @@ def flags_mode(ctx):
         ctx.prove(exc is None and m == want, "mode-table", detail=f"got {m!r} / {exc!r}, want {want!r}")
 
 
-KINDS = ["reg", "deleted", "deleted_stale", "relative", "socket", "pipe", "anon", "chardev", "toolong", "notlink", "closed_at_readlink", "closed_at_fdinfo", "directory"]
+KINDS = ["reg", "deleted", "deleted_stale", "relative", "socket", "pipe", "anon", "chardev", "toolong", "notlink", "closed_at_readlink", "closed_at_readlink_esrch", "closed_at_fdinfo", "closed_at_fdinfo_esrch", "directory"]
 
 
 @harness("C14.open_files", quick=[dict(n=n, acc3=False) for n in (0, 1, 2)] + [dict(n=1, acc3=True)], thorough=[dict(n=n, acc3=False) for n in (0, 1, 2, 3, 4)] + [dict(n=2, acc3=True)])
@@ -76,7 +76,7 @@ def open_files(ctx, n, acc3):
         else:
             ctx.assume(ctx.neg(ctx.eq(flags % 4, 3)))
         k.files[info] = b"pos:\t" + k.num(pos) + b"\nflags:\t" + k.num(flags, base=8, lead=b"0") + b"\nmnt_id:\t27\nino:\t5\n"
-        if kind in ("reg", "deleted", "deleted_stale", "closed_at_fdinfo"):
+        if kind in ("reg", "deleted", "deleted_stale", "closed_at_fdinfo", "closed_at_fdinfo_esrch"):
             # 'deleted': a file whose name really ends in ' (deleted)' and exists; 'deleted_stale': the kernel's suffix on an unlinked file
             path = f"/data/file{i}" + (" (deleted)" if kind in ("deleted", "deleted_stale") else "")
             k.links[link] = path
@@ -84,8 +84,9 @@ def open_files(ctx, n, acc3):
                 k.stats[path] = simk.oserr(errno.ENOENT, path)
                 path = path[:-10]
             k.stats[path] = simk.StatResult()
-            if kind == "closed_at_fdinfo":
-                k.files[info] = simk.oserr(errno.ENOENT, info)
+            if kind.startswith("closed_at_fdinfo"):
+                # the descriptor is closed after its link was read: the kernel answers ENOENT, or ESRCH when the task is being torn down
+                k.files[info] = simk.oserr(errno.ESRCH if kind.endswith("esrch") else errno.ENOENT, info)
             else:
                 want.append((path, fd, pos, flags))
         elif kind == "relative":
@@ -106,8 +107,8 @@ def open_files(ctx, n, acc3):
             k.links[link] = simk.oserr(errno.ENAMETOOLONG, link)
         elif kind == "notlink":
             k.links[link] = simk.oserr(errno.EINVAL, link)
-        elif kind == "closed_at_readlink":
-            k.links[link] = simk.oserr(errno.ENOENT, link)
+        elif kind.startswith("closed_at_readlink"):
+            k.links[link] = simk.oserr(errno.ESRCH if kind.endswith("esrch") else errno.ENOENT, link)
     k.dirs["/proc/77/fd"] = fds
     with k.installed():
         p = psutil.Process(77)
